@@ -231,8 +231,11 @@ class Model():
             )
 
         # First remove all of the associations
-        for association in asset.associations:
-            self.remove_asset_from_association(asset, association)
+        for association in list(asset.associations):
+            # An asset on both sides of a reflexive association lists it
+            # twice, the first pass already took care of it.
+            if association in asset.associations:
+                self.remove_asset_from_association(asset, association)
 
         # Also remove all of the entry points
         for attacker in self.attackers:
